@@ -1,5 +1,6 @@
 /* heap world: C07 (the heap always yields a maximum; the tree stays complete) and the heap part of C15 */
 #include "cstl/heap.h"
+#define W_AUDIT_NEW_STATES_ONLY 1   /* the key holds the implementation's raw state AND the reference model, so the audit verdict is a function of the key */
 #include "../engine/mc.h"
 #include <sanitizer/asan_interface.h>
 
@@ -227,7 +228,7 @@ static void canon_one(int t)
 {
     { ck_nodes = 0; KB_C('H'); KB_U(H[t].bt.size); KB_C('o'); KB_U(H[t].bt.off); KB_C(':'); ck(H[t].bt.root); }
 }
-static void w_canon(void) { canon_one(0); canon_one(1); }
+static void w_canon(void) { int i; canon_one(0); canon_one(1); KB_C('m'); for (i = 0; i < N; i++) KB_C(m_member[i] ? '1' : '0'); }
 static void check_fresh(void)
 {
     char a[128], b[128]; size_t save = mc_kbn, n;
